@@ -38,6 +38,10 @@ inductive SOp where
   | gpub (e : Nat) (a : List Nat)
   /-- `centre.Clear()` -/
   | clear (c : Nat)
+  /-- direct call on the exported global centre: `GetGlobalEC().Subscribe(name, centre)` -/
+  | gsub (e c : Nat)
+  /-- direct call on the exported global centre: `GetGlobalEC().Unsubscribe(name, centre)` -/
+  | gunsub (e c : Nat)
   deriving DecidableEq, Repr, Inhabited
 
 /-- listener template: bound arguments, code pointer (light centre identity), script -/
@@ -84,6 +88,8 @@ inductive Tok where
   | inv (p c e id : Nat) (args a : List Nat)
   | gpub (e : Nat) (a : List Nat) (grew : List Nat)
   | blocked
+  | gsub (e c : Nat)
+  | gunsub (e c : Nat)
   deriving DecidableEq, Repr, Inhabited
 
 /-- iteration-order choices taken from the implementation's trace -/
@@ -117,6 +123,7 @@ structure World where
   out : List Tok                  -- newest first
   locks : List (Nat × Nat)        -- read locks on (centre, name) lists held by dispatch frames (D7 only)
   pubs : Nat                      -- publication counter (ghost)
+  direct : List (Nat × Nat)       -- (name, centre) pairs touched by direct calls on the global centre (ghost)
   blocked : Option Block
   deriving Repr, Inhabited
 
@@ -125,7 +132,7 @@ def maxDepth : Nat := 3
 
 def init (cfg : Cfg) (cs : List (Bool × Bool)) (tm : List (Nat × Tmpl)) : World :=
   { cfg := cfg, cs := cs.map (fun k => ⟨k.1, k.2, true, []⟩), subs := [], gflag := [], greg := [],
-    tmpls := tm, used := [], stack := [], guide := [], out := [], locks := [], pubs := 0, blocked := none }
+    tmpls := tm, used := [], stack := [], guide := [], out := [], locks := [], pubs := 0, direct := [], blocked := none }
 
 def tmplOf (w : World) (t : Nat) : Option Tmpl := (w.tmpls.find? (fun x => x.1 == t)).map (·.2)
 
@@ -227,6 +234,7 @@ def setRunning (cs : List CAttr) (c : Nat) (r : Bool) : List CAttr :=
   | some ct => cs.set c { ct with running := r }
   | none => cs
 
+/-- `Clear`: stop, deregister every list whose Global flag is set, drop all lists -/
 def doClear (w : World) (c : Nat) : World :=
   match w.cs[c]? with
   | some _ =>
@@ -234,7 +242,18 @@ def doClear (w : World) (c : Nat) : World :=
     emit { w with cs := setRunning w.cs c false,
                   subs := w.subs.filter (fun l => !(l.c == c)),
                   gflag := w.gflag.filter (fun x => !(x.1 == c)),
-                  greg := w.greg.filter (fun x => !(x.2 == c)) } (.clear c ids)
+                  greg := w.greg.filter (fun x => !(x.2 == c && w.gflag.contains (c, x.1))) } (.clear c ids)
+  | none => emit w .bad
+
+/-- direct `GlobalEventCenter.Subscribe / Unsubscribe(name, centre)`: the registration is a set of centres per
+name (sync.Map keyed by centre id): Subscribe adds, Unsubscribe removes if present.  (`LocalECList.Size` is a
+statistic for DumpInfo and is not part of the model.)  A light centre is not an `ILocalEventCenter`. -/
+def doGsub (w : World) (e c : Nat) (add : Bool) : World :=
+  match w.cs[c]? with
+  | some ct =>
+    if ct.light then emit w .bad
+    else emit { w with greg := if add then insertP (e, c) w.greg else eraseP (e, c) w.greg,
+                       direct := insertP (e, c) w.direct } (if add then .gsub e c else .gunsub e c)
   | none => emit w .bad
 
 def execOp (w : World) : SOp → World
@@ -244,6 +263,8 @@ def execOp (w : World) : SOp → World
   | .pub c e a => doPub w c e a
   | .gpub e a => doGpub w e a
   | .clear c => doClear w c
+  | .gsub e c => doGsub w e c true
+  | .gunsub e c => doGsub w e c false
 
 /-- which listener does the iteration produce next? `none` = the loop ends -/
 def pick (guide : List GTok) (must may : List Sub) : Option Sub × List GTok :=
